@@ -296,5 +296,46 @@ theorem safeConv_tie :
         = !isConvErr (convertSafe (sampleV f) t) := by
   decide
 
+/-! ### reset completeness of the long-lived objects (C05)
+
+The fields of each object, and the fields its reset method assigns.  Every field that processing an input
+writes (everything except the configuration: tokenizer object, options, states, collections, flags) is
+assigned by the reset: nothing of an earlier input can survive it.  The object model `Model/Objects.lean`
+mirrors exactly these field lists. -/
+
+def fieldsOf (k : String) : List String := ((resetFacts.find? (·.1 == k)).map (·.2.1)).getD []
+def resetOf (k : String) : List String := ((resetFacts.find? (·.1 == k)).map (·.2.2)).getD []
+
+theorem parserReset_tie :
+    fieldsOf "ExpressionParser.Clear" = ["tokenizer", "expression", "originalTokens", "initialTokens",
+      "currentTokenIndex", "variableNames", "resultTokens"] ∧
+    ((fieldsOf "ExpressionParser.Clear").filter (· != "tokenizer")).all (resetOf "ExpressionParser.Clear").contains = true := by
+  decide
+
+theorem mustacheParserReset_tie :
+    fieldsOf "MustacheParser.Clear" = ["tokenizer", "template", "originalTokens", "initialTokens",
+      "currentTokenIndex", "variableNames", "resultTokens"] ∧
+    ((fieldsOf "MustacheParser.Clear").filter (· != "tokenizer")).all (resetOf "MustacheParser.Clear").contains = true := by
+  decide
+
+/-- `SetReader` assigns the three per-input fields of the tokenizer (the other fifteen are configuration);
+the mustache tokenizer re-derives its mode fields whenever the reader changed -/
+theorem tokenizerReset_tie :
+    resetOf "AbstractTokenizer.SetReader" = ["Scanner", "NextTokenValue", "LastTokenType"] ∧
+    (fieldsOf "AbstractTokenizer.SetReader").filter (fun f => !(resetOf "AbstractTokenizer.SetReader").contains f) =
+      ["Overrides", "mp", "skipUnknown", "skipWhitespaces", "skipComments", "skipEof", "mergeWhitespaces",
+       "unifyNumbers", "decodeStrings", "commentState", "numberState", "quoteState", "symbolState",
+       "whitespaceState", "wordState"] ∧
+    fieldsOf "MustacheTokenizer.ReadNextToken" = ["special", "specialState", "reader"] ∧
+    resetOf "MustacheTokenizer.ReadNextToken" = ["reader", "special"] := by
+  decide
+
+/-- the calculator and the template keep no per-input state of their own (their parser does) -/
+theorem calculatorFields_tie :
+    fieldsOf "ExpressionCalculator.Clear" = ["defaultVariables", "defaultFunctions", "variantOperations", "parser",
+      "autoVariables"] ∧
+    fieldsOf "MustacheTemplate.Clear" = ["defaultVariables", "parser", "autoVariables"] := by
+  decide
+
 end TieA
 end Verif
